@@ -16,6 +16,15 @@ Proof.
   rewrite E. reflexivity.
 Qed.
 
+Lemma pick_sides (invert : bool) (G H : hostg) n x y : label G n = Some x -> label H n = Some y ->
+  a_hc x <> a_hc y \/ a_ch x <> a_ch y ->
+  exists xa yb, label (if invert then H else G) n = Some xa /\ label (if invert then G else H) n = Some yb /\
+                (a_hc xa <> a_hc yb \/ a_ch xa <> a_ch yb).
+Proof.
+  intros Ex Ey Hd. destruct invert; [exists y, x|exists x, y]; repeat split; auto.
+  destruct Hd; [left|right]; congruence.
+Qed.
+
 Section Final.
   Variables (core invert : bool) (G H : hostg).
   Hypothesis W : pair_wfb G H = true.
@@ -116,6 +125,33 @@ Section Final.
     rewrite ET. simpl. split; [reflexivity|]. exact (regen_exact_true A B tpl pair_AB D T ET).
   Qed.
 
+  (** the converse for the centre: if some atom outside the centre changes hydrogen count or charge, the centre
+      template glued along the identity does NOT give the reaction back *)
+  Theorem centre_exact : core = true -> centre_carries (its_construct G H) = false ->
+    exists T, regenerate core invert G H = Some T /\ regen_exact T A B = false.
+  Proof.
+    intros Ec CC.
+    destruct (fits_glue_some A B tpl template_fits (pw_A _ _ pair_AB)) as [T ET]. exists T.
+    unfold regenerate. rewrite rule_is_template, mode_implicit, pattern_is_left, pattern_ids, substrate_is_A. simpl.
+    rewrite ET. simpl. split; [reflexivity|].
+    unfold centre_carries in CC. destruct (outside_change (its_construct G H) (get_rc (its_construct G H))) as [|n0 r0] eqn:Eo; [discriminate|].
+    assert (I0 : In n0 (outside_change (its_construct G H) (get_rc (its_construct G H)))) by (rewrite Eo; left; reflexivity).
+    unfold outside_change in I0. apply in_map_iff in I0. destruct I0 as ([n a] & En & I0). simpl in En; subst n0.
+    apply filter_In in I0. destruct I0 as [I0 P]. simpl in P. apply andb_prop in P. destruct P as [P1 P2].
+    c03 (construct_node G H) as CN. destruct (CN n a I0) as [-> In_].
+    destruct (in_ids_label G n In_) as [x Ex]. destruct (in_ids_label H n (proj1 (pw_ids _ _ PW n) In_)) as [y Ey].
+    unfold its_node, side_tuple in P2; simpl in P2. rewrite Ex, Ey in P2.
+    assert (Hd : a_hc x <> a_hc y \/ a_ch x <> a_ch y).
+    { apply orb_prop in P2. destruct P2 as [P2|P2]; apply negb_true_iff in P2; apply Z.eqb_neq in P2; auto. }
+    assert (NI : ~ In n (node_ids tpl)).
+    { assert (NR : ~ In n (node_ids (get_rc (its_construct G H)))).
+      { apply negb_true_iff in P1. unfold has_node in P1.
+        destruct (label (get_rc (its_construct G H)) n) eqn:El; [discriminate|]. exact (label_none _ n El). }
+      unfold tpl, template. rewrite Ec. destruct invert; [rewrite invert_ids|]; exact NR. }
+    destruct (pick_sides invert G H n x y Ex Ey Hd) as (xa & yb & Exa & Eyb & Hd').
+    exact (fits_outside_not_regen A B tpl template_fits T n xa yb ET NI Exa Eyb Hd').
+  Qed.
+
   (** C04_in_results_partial: whatever the pruning keeps, if the identity is kept the reaction is among the ITS built *)
   Theorem in_results_partial (kept : list mapping) : (core = true -> centre_carries (its_construct G H) = true) ->
     In (identity core invert G H) kept ->
@@ -138,3 +174,9 @@ Lemma in_results_partial_all (core invert : bool) (G H : hostg) (kept : list map
   exists T : its, In (Some T) (its_list core invert G H kept) /\
     regen_exact T (if invert then H else G) (if invert then G else H) = true.
 Proof. intros W NH. exact (in_results_partial core invert G H W NH kept). Qed.
+
+Lemma centre_exact_all (invert : bool) (G H : hostg) : pair_wfb G H = true -> no_explicit_H G = true ->
+  centre_carries (its_construct G H) = false ->
+  exists T : its, regenerate true invert G H = Some T /\
+    regen_exact T (if invert then H else G) (if invert then G else H) = false.
+Proof. intros W NH. exact (centre_exact true invert G H W NH eq_refl). Qed.
